@@ -222,6 +222,9 @@ impl Iterator for CaseIter {
         }
         let c = self.next;
         self.next += 1;
+        if std::env::var("VCHECK_TRACE").is_ok() {
+            eprintln!("case {c}");
+        }
         CURRENT_CASE.store(c, std::sync::atomic::Ordering::SeqCst);
         Some(c)
     }
